@@ -62,6 +62,8 @@ type dynCall struct {
 	method string
 	sig    *types.Signature
 	recvT  types.Type
+	info   *types.Info // for calls through a function value: where the callee expression lives
+	fun    ast.Expr    // the callee expression
 }
 
 type callGraph struct {
@@ -177,6 +179,7 @@ func (w *World) graph() *callGraph {
 		n.direct = newEffects()
 		w.scanDirect(n.info, body, n.direct, func(c *cgNode) { n.callees[c] = true }, func(d dynCall) { n.dyn = append(n.dyn, d) }, n.lit)
 	}
+	w.ff = w.buildFVFlow()
 	for _, n := range g.nodes {
 		for _, d := range n.dyn {
 			for _, t := range w.resolveDyn(d) {
@@ -234,6 +237,16 @@ func (w *World) resolveDyn(d dynCall) []*cgNode {
 		}
 		return out
 	}
+	// a call through a function value: where the value comes from, if the flow analysis can tell
+	if d.fun != nil && w.ff != nil {
+		src := w.fvSources(w.ff, d.info, d.fun)
+		if !src.top {
+			for n := range src.nodes {
+				out = append(out, n)
+			}
+			return out
+		}
+	}
 	for _, n := range g.values {
 		if sameSig(n.sig, d.sig) {
 			out = append(out, n)
@@ -275,19 +288,24 @@ func (w *World) effectsOfCall(info *types.Info, call *ast.CallExpr) *Effects {
 			eff.merge(t.eff)
 		}
 	})
-	// the counter of this very call is advanced by the caller after the call
-	for k := range eff.Locks {
-		if strings.HasPrefix(k, "G$calls.") {
-			direct := false
-			if fn := staticCallee(info, call); fn != nil {
-				if fi := w.ByObj[fn]; fi != nil && k == "G$calls."+fi.Short {
-					if n := w.cg.byFunc[fn]; n != nil && !n.eff.Locks[k] {
-						direct = true
-					}
+	// the counter of this very call is advanced by the caller after the call: it is not part of the callee's effect
+	// unless the callee (or one of its possible targets) makes such a call itself
+	if fn := staticCallee(info, call); fn != nil {
+		own := ""
+		if fi := w.ByObj[fn]; fi != nil {
+			own = "G$calls." + fi.Short
+		} else {
+			own = "G$calls." + extKey(fn)
+		}
+		if eff.Locks[own] {
+			inner := newEffects()
+			w.callEffects(info, call, newEffects(), func(c *cgNode) { inner.merge(c.eff) }, func(d dynCall) {
+				for _, t := range w.resolveDyn(d) {
+					inner.merge(t.eff)
 				}
-			}
-			if direct {
-				delete(eff.Locks, k)
+			})
+			if !inner.Locks[own] {
+				delete(eff.Locks, own)
 			}
 		}
 	}
@@ -603,7 +621,7 @@ func (w *World) callEffects(info *types.Info, call *ast.CallExpr, eff *Effects, 
 	dynSig := func() {
 		if t := info.TypeOf(call.Fun); t != nil {
 			if sig, ok := t.Underlying().(*types.Signature); ok {
-				dyn(dynCall{sig: sig})
+				dyn(dynCall{sig: sig, info: info, fun: call.Fun})
 			}
 		}
 	}
@@ -694,6 +712,9 @@ func (w *World) callEffects(info *types.Info, call *ast.CallExpr, eff *Effects, 
 			}
 		}
 		return
+	}
+	if w.countedExt(extKey(fn)) {
+		eff.Locks["G$calls."+extKey(fn)] = true
 	}
 	if recvIface {
 		if n := namedOf(recvT); n != nil && n.Obj().Pkg() != nil {
